@@ -413,9 +413,25 @@ def check_soft(case, ctx):
     if node.startswith('encoder') and len(lead) >= 2:
         bucket += ':multi-lead-dims'
 
+    grad = np.array(grad, copy=True)
+    out_kept, g_kept, x_kept = np.array(out, copy=True), g.copy(), x.copy()
+
     def cost(xx):
         return float(np.sum(g * fwd(make(), xx)))
     directional_check(ctx, cost, x, grad, v, bucket, '%s input shape %s tau=%r' % (node, shape, case['tau']))
+    # one forward pass, several reverse passes (two cost terms sharing the pass, a Jacobian built row by row): every reverse pass is the
+    # gradient for *its* upstream gradient, the first one can be repeated, and what forward() returned stays what it was
+    g2 = r.uniform(-1, 1, oshape)
+    grad2 = np.array(ctx.call(n.backprop, g2), copy=True)
+
+    def cost2(xx):
+        return float(np.sum(g2 * fwd(make(), xx)))
+    directional_check(ctx, cost2, x, grad2, v, bucket + ':second-reverse-pass', '%s input shape %s tau=%r, second backprop after one forward' % (node, shape, case['tau']))
+    grad3 = ctx.call(n.backprop, g)
+    U.check_close(grad3, grad, 1e-12, bucket + ':second-reverse-pass', 'backprop(g) repeated after backprop(g2) gives another gradient', atol=1e-300)
+    U.check_equal(np.asarray(out), out_kept, bucket + ':forward-result-overwritten', 'the array returned by forward() changed during backprop')
+    U.check_equal(g, g_kept, bucket + ':argument-modified', 'backprop modified the upstream gradient it was given')
+    U.check_equal(x, x_kept, bucket + ':argument-modified', 'forward / backprop modified the input array')
 
 
 # ---- scalar activations -----------------------------------------------------------------------------------------------
@@ -588,7 +604,10 @@ def strat_dm(tier):
         'layout': U.layouts, 'seed': U.seeds,
         # rectangular geometries: influence-function array wider than tall (extra columns), output size per axis ("Nout: int or tuple of int")
         'ncols_extra': st.sampled_from([0, 0, 0, 8, 9, 16]), 'dNout_cols': st.one_of(st.none(), st.none(), st.sampled_from([0, 8, -8, 7, -7, 1, -1])),
-        'Nout_form': st.sampled_from(['int', 'tuple', 'list'])})
+        'Nout_form': st.sampled_from(['int', 'tuple', 'list']),
+        # (Z, Y, X) rotation of the mirror in degrees
+        'rot': st.one_of(st.just([0, 0, 0]), st.just([0, 0, 0]), st.just([0, 0, 0]),
+                         st.tuples(*[st.sampled_from([0, 0, 0.01, -3, 5, 10, -12, 7.5])] * 3).map(list))})
 
 
 def check_dm(case, ctx):
@@ -618,7 +637,12 @@ def check_dm(case, ctx):
               'Nout-square' if Nout[0] == Nout[1] else 'Nout-rectangular')
     form = case.get('Nout_form', 'int')
     Nout_arg = int(Nout[0]) if (form == 'int' and Nout[0] == Nout[1]) else (list(Nout) if form == 'list' else tuple(Nout))
-    dm = ctx.call(DM, ifn, Nout_arg, Nact, sep, shift, (0, 0, 0), ups)
+    rot = tuple(case.get('rot', [0, 0, 0]))
+    rotated = any(v != 0 for v in rot)
+    if rotated:
+        ctx.label('rotated:z' if rot[1] == 0 and rot[2] == 0 else 'rotated:tilted')
+        ctx.nt(True)
+    dm = ctx.call(DM, ifn, Nout_arg, Nact, sep, shift, rot, ups)
     r = U.rng_of(case['seed'], 8)
     a = r.uniform(-1, 1, dm.actuators.shape)
     a2 = r.uniform(-1, 1, dm.actuators.shape)
@@ -640,11 +664,23 @@ def check_dm(case, ctx):
     U.check_close(Rsum, 0.5 * Ra - 2.0 * Ra2, 0, 'DM.render:linearity', 'render is not linear in the actuators', atol=1e-10 * max(float(np.abs(Ra).max()), 1e-300))
     y = r.uniform(-1, 1, Ra.shape)
     render(a)
-    g = ctx.call(dm.render_backprop, U.relayout(y.copy(), case.get('layout', 'C')), wfe)
-    adjoint_check(ctx, Ra, a, g, y, bucket, 'ifn %dx%d Nact=%d sep=%d Nout=%r shift=%r upsample=%g wfe=%r' % (n, ncol, Nact, sep, Nout_arg, shift, ups, wfe), tol=1e-9)
+    y_arg = U.relayout(y.copy(), case.get('layout', 'C'))
+    g = np.array(ctx.call(dm.render_backprop, y_arg, wfe), copy=True)
+    # the caller's upstream gradient comes back unchanged, and the same array handed over again gives the same gradient
+    U.check_equal(y_arg, y, bucket + ':argument-modified', 'render_backprop modified the upstream gradient it was given (geometry %s)' % geom)
+    g_again = ctx.call(dm.render_backprop, y_arg, wfe)
+    U.check_close(np.asarray(g_again), g, 1e-12, bucket + ':argument-modified', 'render_backprop called twice with the same array gives two different gradients', atol=1e-300)
+    what = 'ifn %dx%d Nact=%d sep=%d Nout=%r shift=%r rot=%r upsample=%g wfe=%r' % (n, ncol, Nact, sep, Nout_arg, shift, rot, ups, wfe)
+    if not rotated:
+        adjoint_check(ctx, Ra, a, g, y, bucket, what, tol=1e-9)
+    else:
+        # a rotated / tilted mirror: render() resamples with an interpolating warp and render_backprop() warps back with the inverse projection,
+        # which is not the transpose of the interpolation (KNOWN FINDING, see known_findings.json: relative mismatch 1e-8 .. 1e-1 for rotations up
+        # to 12 degrees).  Still asserted here: the companion is that approximation and nothing grossly different (sign, missing factor, transposed axes)
+        adjoint_check(ctx, Ra, a, g, y, 'DM.render_backprop:rotated:gross-mismatch', what, tol=0.2)
     # the companion is linear in the upstream gradient and does not depend on the commands: a fresh mirror whose only render so far was the flat
     # one (all commands zero - the first iteration of an optimisation) must hand back the same gradient
-    dm0 = ctx.call(DM, ifn, Nout_arg, Nact, sep, shift, (0, 0, 0), ups)
+    dm0 = ctx.call(DM, ifn, Nout_arg, Nact, sep, shift, rot, ups)
     dm0.actuators[:] = 0
     R0 = np.asarray(ctx.call(dm0.render, wfe))
     U.check_shape(R0, Nout, 'DM.render:flat')
@@ -652,6 +688,9 @@ def check_dm(case, ctx):
     g0 = ctx.call(dm0.render_backprop, y.copy(), wfe)
     U.check_close(np.asarray(g0), np.asarray(g), 1e-9, bucket + ':after-flat-render', 'render_backprop on a fresh DM after a flat render differs from the gradient after a non-flat render',
                   atol=1e-12 * max(float(np.abs(np.asarray(g)).max()), 1e-300))
+    if rotated:
+        adjoint_check(ctx, Ra, a, g, y, 'DM.render_backprop:rotated:not-the-adjoint', what, tol=1e-9)
+
 
 
 CLAUSES = [
